@@ -291,6 +291,10 @@ func evaluate(c Case) outcome {
 		}
 		return out
 	}
+	if f := auditWritten(e.tgt.view(), e.tgt.Kind == "reg", pre.Content); f != nil {
+		out.F = f
+		return out
+	}
 	if f := historyAlignment(e, dig); f != nil {
 		out.F = f
 		return out
@@ -462,13 +466,19 @@ func hasKind(c Case, pred func(string) bool) bool {
 // After a fix the mechanism's evidence no longer occurs; anything else that
 // violates the same clause keeps its own, different signature.
 func recognise(c Case, b *built, f *finding) string {
-	clause := strings.TrimPrefix(f.Clause, "after-close-")
+	clause := strings.TrimPrefix(strings.TrimPrefix(strings.TrimPrefix(f.Clause, "after-close-"), "written-"), "referrer-")
 	isFileStep := func(k string) bool { return fileStepKinds[k] }
 	// rebase of >=2 platform images onto a base that is a single image (one cached manifest object):
 	// the step builds each image's layer list with append(layersNew, own...) on the SAME slice; when
 	// its capacity exceeds its length (3, 5, 6, 7 ... layers decoded from JSON) the images overwrite each
 	// other's first own layer (or a later delete zeroes it)
-	if c.Base != nil && !c.Base.AsIndex && !c.Base.SameNew && hasKind(c, func(k string) bool { return k == "rebase" || k == "rebase-refs" }) {
+	rebases := false
+	for _, o := range c.Program {
+		if c.Base != nil && ((o.Kind == "rebase" && !c.Base.SameNew) || (o.Kind == "rebase-refs" && o.N != 1)) {
+			rebases = true
+		}
+	}
+	if rebases && !c.Base.AsIndex {
 		n, rebased := len(c.Base.NewLayers), 0
 		for _, im := range c.Images {
 			if im.UseBase {
@@ -575,7 +585,7 @@ func culprit(c Case, clause string) string {
 
 // fileStepKinds are the options that register a per-file step.
 var fileStepKinds = map[string]bool{"layer-reproducible": true, "layer-strip-file": true, "layer-time": true, "layer-time-label": true,
-	"layer-time-max": true, "file-tar-time": true, "file-tar-time-max": true}
+	"layer-time-max": true, "file-tar-time": true, "file-tar-time-max": true, "time": true, "time-max": true}
 
 func popcount(x int) int {
 	n := 0
@@ -675,6 +685,9 @@ func check(c Case, ev *evid.Collector) *evid.Violation {
 	if out.Status == "success" {
 		if out.Noop {
 			classes = append(classes, "oracle:noop-claimed")
+			for k := range seen {
+				classes = append(classes, "noopok:"+k)
+			}
 		}
 		if out.TagNotCreated {
 			classes = append(classes, "result:nothing-written-tag-not-created")
@@ -747,6 +760,16 @@ func TestVerifReplay(t *testing.T) {
 	}
 	for i := 0; i < 3; i++ {
 		v := evid.Guard(func() *evid.Violation { return check(c, ev) })
+		if ev.Report(v, c) {
+			t.Fatalf("%v", v)
+		}
+	}
+	// the cross-process clause needs the pinned epoch (export SOURCE_DATE_EPOC=1700000000 to replay such a case)
+	if os.Getenv("SOURCE_DATE_EPOC") != "" {
+		v, err := checkCrossProc(c, ev)
+		if err != nil {
+			t.Fatalf("inconclusive: %v", err)
+		}
 		if ev.Report(v, c) {
 			t.Fatalf("%v", v)
 		}
